@@ -182,5 +182,5 @@ func cmdList(args []string) {
 	}
 }
 
-func cmdSelftest(args []string) { fatalf("selftest: not built yet") }
-func cmdReplay(args []string)   { fatalf("replay: not built yet") }
+func cmdSelftest(args []string) { cmdSelftestImpl(args) }
+func cmdReplay(args []string)   { cmdReplayImpl(args) }
